@@ -44,19 +44,21 @@ def main(run):
     ]
     run.assumptions += [
         "IEEE rounding of the C/Python code is not modelled (tolerance 1e-8*||D||)",
-        "invariance under point-group operations q -> Rq is a Lean theorem only for short range / commensurate q "
-        "(dynmat_rotation_partial); the oracle evaluates it for force constants whose range is shorter than half the "
-        "shortest supercell vector, where the supercell result is the infinite-crystal one for every q",
+        "invariance under q -> Rq: theorem dynmat_rotation for operations preserving the supercell (hypotheses: index-map "
+        "certificate evaluated in Lean per (crystal, operation), covariance of the generated force constants checked "
+        "numerically), theorem dynmat_rotation_fourier for short range / commensurate q; for the other operations of "
+        "primitive_symmetry.reciprocal_operations the oracle evaluates it on short-range force constants only",
         "run_qpoints is called with with_eigenvectors=False (with eigenvectors the OpenMP path returns the eigenvector "
         "buffer as dynamical matrices: DESIGN section 7 F1, owned by C14)",
     ]
     run.cov["partial"] = [
-        "dynmat_rotation_partial: spectrum under point-group operations proved only where the matrix is the lattice "
-        "Fourier sum (short range or q, Rq commensurate); dynmat_rotation_FullStatement (any range, any q) not proved, oracle only",
-        "reciprocal_ops_closed (the list {r^T} u {-r^T} of get_pointgroup_operations): no Lean model, oracle only"]
+        "dynmat_rotation (any q, any range) is proved for operations that map the supercell onto itself (certificate "
+        "svecsInvariantOk); for operations of the primitive cell that do not preserve the supercell the invariance of the "
+        "spectrum holds only for short-range force constants (dynmat_rotation_fourier) and is otherwise not a property of the code",
+        ]
 
     names = list(gen.PROTOTYPES)
-    ncases = 400 if thorough else 64
+    ncases = 520 if thorough else 64
     max_ns = 96 if thorough else 54
     short_smats = [np.diag(d) for d in ((2, 2, 2), (3, 3, 3), (2, 2, 3), (3, 2, 2))] + [
         np.array(m) for m in ([[2, 1, 0], [0, 2, 0], [0, 0, 2]], [[2, 0, 1], [-1, 2, 0], [0, 1, 2]], [[-1, 1, 1], [1, -1, 1], [1, 1, -1]],
@@ -76,7 +78,7 @@ def main(run):
         det = int(round(np.linalg.det(smat)))
         if det < 1 or len(cell) * det > max_ns:
             continue
-        pm = cen if rng.random() < 0.75 else "auto"
+        pm, pmlabel = U.pick_pmat(rng, cen)
         try:
             ph = Phonopy(cell, supercell_matrix=smat, primitive_matrix=pm, log_level=0,
                          store_dense_svecs=rng.random() < 0.8)
@@ -86,7 +88,7 @@ def main(run):
         sc, pc = ph.supercell, ph.primitive
         ns, npa = len(sc), len(pc)
         minv = gen.min_lattice_vector(sc.cell)
-        info = dict(cell=name, smat=smat.tolist(), pmat=pm, fc=fckind, n_satom=ns, n_patom=npa)
+        info = dict(cell=name, smat=smat.tolist(), pmat=pmlabel, fc=fckind, n_satom=ns, n_patom=npa)
         if fckind == "pair-short":
             cutoff = minv * rng.uniform(0.40, 0.495)
             if cutoff < U.nn_distance(cell) * 1.001:
@@ -206,7 +208,7 @@ def main(run):
                         run.count("cell=%s" % info["cell"])
                         run.count("q=%s" % qk)
                         run.count("fc=%s" % kind)
-                        run.count("pmat=%s" % info["pmat"])
+                        run.count("pmat=%s" % (info["pmat"] if "*" not in info["pmat"] else "explicit(centring*unimodular)"))
                         sm = np.array(info["smat"])
                         run.count("smat=%s" % ("diagonal" if (sm == np.diag(np.diag(sm))).all() else "non-diagonal"))
 
@@ -367,12 +369,48 @@ def main(run):
             meta.append(("svinv", c, r))
             lines.append(U.svdev_line(Tt, mp))
             meta.append(("svdev", c, r))
+    # get_pointgroup_operations on every prototype (unit cell with its centring, and the primitive cell), with and
+    # without time reversal: exact comparison with the model, group certificate evaluated on spglib's rotations
+    from phonopy.structure.symmetry import get_pointgroup_operations
+
+    seen_rot = set()
+    for name in sorted(gen.PROTOTYPES):
+        cell_, cen_ = U.get_cell(name)
+        try:
+            ph_ = Phonopy(cell_, supercell_matrix=np.eye(3, dtype=int), primitive_matrix=cen_, log_level=0)
+        except Exception:
+            continue
+        for symobj, which in ((ph_.symmetry, "supercell"), (ph_.primitive_symmetry, "primitive")):
+            rots = np.array(symobj.symmetry_operations["rotations"], dtype=int)
+            key = rots.tobytes()
+            if key in seen_rot and not thorough:
+                continue
+            seen_rot.add(key)
+            for tr in (True, False):
+                p_, r_ = get_pointgroup_operations(rots, is_time_reversal=tr)
+                lines.append("ptgops %d %d %s" % (int(tr), len(rots), " ".join(str(int(x)) for x in rots.ravel())))
+                meta.append(("ptgops", dict(cell=name, which=which, time_reversal=tr, n_rot=len(rots)), (np.array(p_), np.array(r_))))
+            if (np.array(symobj.pointgroup_operations) != np.array(get_pointgroup_operations(rots)[0])).any() or \
+                    (np.array(symobj.reciprocal_operations) != np.array(get_pointgroup_operations(rots)[1])).any():
+                run.broke("correspondence", "Symmetry.pointgroup_operations/reciprocal_operations are not get_pointgroup_operations(rotations)",
+                          dict(cell=name, which=which))
     if lines:
         out = common.lean_run_driver("C03", lines)
         if len(out) != len(lines):
             run.broke("correspondence", "driver answered %d lines for %d requests" % (len(out), len(lines)))
         ncmp = 0
         for mt, line in zip(meta, out):
+            if mt[0] == "ptgops":
+                run.count("pointgroup-operation lists", section="correspondence")
+                p_, r_ = mt[2]
+                want = "true %d %s | %d %s" % (len(p_), " ".join(str(int(x)) for x in p_.ravel()), len(r_),
+                                               " ".join(str(int(x)) for x in r_.ravel()))
+                if " ".join(line.split()) != " ".join(want.split()):
+                    run.broke("correspondence", "get_pointgroup_operations differs from the model (or the rotations are not a group: %s)"
+                              % line.split()[0], mt[1])
+                    if line.split()[0] == "true":
+                        run.violation("get_pointgroup_operations", "operation-lists", "point-group / reciprocal operation lists differ from the model", mt[1])
+                continue
             if mt[0] in ("svinv", "svdev"):
                 run.count("%s-certificates" % mt[0], section="correspondence")
                 if line != "true":
